@@ -601,14 +601,15 @@ func (vc *VC) stringEq(a, b Val, st *State) *Term {
 		}
 		return And(cs...)
 	}
-	k := vc.fresh("k", SInt)
-	return And(Eq(a.C[2], b.C[2]), Forall([]*Term{k}, Implies(And(Le(Zero, k), Lt(k, a.C[2])),
-		Eq(Select(Select(sm, a.C[0]), Add(a.C[1], k)), Select(Select(sm, b.C[0]), Add(b.C[1], k))))))
+	// neither side is a short constant: equality of contents is equality of content keys (A-key)
+	return Eq(vc.stringKey(a), vc.stringKey(b))
 }
 
 func (vc *VC) stringConcat(a, b Val, st *State, t types.Type) Val {
 	id := vc.alloc(st)
 	n := Add(a.C[2], b.C[2])
+	// A-key: the content key of a concatenation is a function of the operands' content keys
+	vc.strKeys[id.id] = App("u_cat", SInt, vc.stringKey(a), vc.stringKey(b))
 	sm := vc.strMem()
 	k := vc.fresh("k", SInt)
 	vc.assume(Forall([]*Term{k}, Implies(And(Le(Zero, k), Lt(k, n)),
